@@ -83,3 +83,10 @@ Theorem every_class_overrides_copy :
   forall c, In c classes -> c_idx c <> 0 -> c_copy c <> 0.
 Proof. exact Lemmas.every_class_overrides_copy. Qed.
 Print Assumptions every_class_overrides_copy.
+
+(* `_make_key` is exactly (args, frozenset(kwargs.items())) and `memoize` is the look-up / compute-and-store wrapper:
+   the model's key (function cache, state identity, data, view, call form) with unhashable views bypassing the store
+   is the key of the current source. *)
+Theorem memo_key_plain_table : memo_key_plain = 1 /\ memo_wrapper_plain = 1.
+Proof. exact Lemmas.memo_key_plain_table. Qed.
+Print Assumptions memo_key_plain_table.
